@@ -15,7 +15,7 @@ import genlib as G
 A = "routee-compass-core/src/algorithm/search/"
 OBLIGATIONS = ["run_a_star", "advance_search", "get_last_traversed_edge_id", "tree_key_vertex_id", "terminal_vertex_id",
                "lemma_no_revisit", "lemma_iteration_limit", "lemma_size_limit", "lemma_route_edges_permitted", "lemma_closed_step", "lemma_reachable_is_labelled", "lemma_no_path_means_unreachable",
-               "lemma_path_prefix", "lemma_label_le_path", "lemma_chain_cost_le_label", "lemma_tree_route_least", "lemma_up", "lemma_parents_reach_source"]
+               "lemma_path_prefix", "lemma_label_le_path", "lemma_chain_cost_le_label", "lemma_tree_route_least", "lemma_up", "lemma_parents_reach_source", "lemma_entry_is_reachable"]
 MUST_FAIL = ["vacuity_probe"]
 
 HEAD = """#![allow(unused_imports, unused_variables, dead_code, unused_mut, unused_parens, unused_assignments)]
@@ -296,6 +296,13 @@ pub open spec fn least_post(si: &SearchInstance, d: Direction, source: VertexId,
         &&& bell_ok(si, d, labels, Set::<VertexId>::empty(), expanded, refused)
         &&& tied_ok(si, d, r.tree@)
     }
+}
+/// INC: the edge a tree entry records is one of the incident edges (in the search direction) of the entry's parent -- position `inc_idx` of the parent's list
+pub open spec fn inc_at(g: &Graph, d: Direction, t: Map<VertexId, SearchTreeBranch>, k: VertexId, i: int) -> bool {
+    0 <= i < incident(g, d, t[k].terminal_vertex).len() && incident(g, d, t[k].terminal_vertex)[i] == t[k].edge_traversal.edge_id
+}
+pub open spec fn inc_ok(g: &Graph, d: Direction, t: Map<VertexId, SearchTreeBranch>) -> bool {
+    forall|k: VertexId| #[trigger] t.contains_key(k) ==> exists|i: int| #[trigger] inc_at(g, d, t, k, i)
 }
 pub open spec fn search_inv(si: &SearchInstance, d: Direction, source: VertexId, target: Option<VertexId>, t: Map<VertexId, SearchTreeBranch>,
                             labels: Map<VertexId, Cost>, queued: Set<VertexId>, expanded: Set<VertexId>, refused: Set<EdgeId>) -> bool {
@@ -610,6 +617,31 @@ pub proof fn lemma_parents_reach_source(source: VertexId, t: Map<VertexId, Searc
     assert(labels.contains_key(c[m - 1]));
     assert(c.last() == c[m - 1]);
 }
+
+// ===== C05 "a tree whose vertices are PRECISELY those reachable": every tree entry is reached from the origin by a path of permitted incident edges =====
+/// the path of the graph spelled out by a chain of parent links read backwards (from the origin to the entry) and the positions of its edges in the incident lists
+pub open spec fn chain_path(c: Seq<VertexId>) -> Seq<VertexId> { Seq::new(c.len(), |j: int| c[c.len() - 1 - j]) }
+pub open spec fn chain_idx(g: &Graph, d: Direction, t: Map<VertexId, SearchTreeBranch>, c: Seq<VertexId>) -> Seq<int> {
+    Seq::new((c.len() - 1) as nat, |j: int| choose|i: int| #[trigger] inc_at(g, d, t, c[c.len() - 2 - j], i))
+}
+pub proof fn lemma_entry_is_reachable(si: &SearchInstance, d: Direction, source: VertexId, t: Map<VertexId, SearchTreeBranch>, labels: Map<VertexId, Cost>, c: Seq<VertexId>)
+    requires tree_wf(&si.directed_graph, &si.frontier_model, d, t), dom_ok(source, t, labels), inc_ok(&si.directed_graph, d, t), edge_local(&si.frontier_model),
+             parent_chain(t, c), c.last() == source
+    ensures permitted_path(si, d, chain_path(c), chain_idx(&si.directed_graph, d, t, c)), chain_path(c)[0] == source, chain_path(c).last() == c[0]
+{
+    let g = &si.directed_graph;
+    let path = chain_path(c); let idx = chain_idx(g, d, t, c);
+    let n = c.len() as int;
+    assert forall|j: int| 0 <= j < idx.len() implies #[trigger] pstep(si, d, path, idx, j) by {
+        let k = c[n - 2 - j];            // the entry reached by step j
+        assert(t.contains_key(c[n - 2 - j]) && t[c[n - 2 - j]].terminal_vertex == c[n - 2 - j + 1]);
+        let i = choose|i: int| #[trigger] inc_at(g, d, t, k, i);
+        assert(inc_at(g, d, t, k, i));
+        assert(path[j] == c[n - 1 - j] && path[j + 1] == k);
+        assert(idx[j] == i);
+        lemma_route_edges_permitted(g, &si.frontier_model, d, t, k);
+    }
+}
 """
 
 
@@ -692,6 +724,8 @@ def build(x):
         res matches Ok(r) ==> search_post(si, *direction, source, target, r),
         // (the returned tree is a finite map: premise of lemma_parents_reach_source)
         res matches Ok(r) ==> r.tree@.dom().finite(),
+        // C05 ("precisely those reachable"): every tree entry's edge is an incident edge of its parent (with lemma_entry_is_reachable: every labelled vertex IS reachable)
+        res matches Ok(r) ==> inc_ok(&si.directed_graph, *direction, r.tree@),
         // C02 / C05 (least cost): a tree search on an instance whose edge costs do not depend on how the edge was reached returns Bellman potentials
         res matches Ok(r) ==> (target is None && cost_local(si) ==> least_post(si, *direction, source, r)),
         // C05 / C10: 'no path' names this query; a limit failure is returned as such
@@ -710,7 +744,8 @@ def build(x):
             exp_ok(&si.directed_graph, &si.frontier_model, *direction, traversal_costs@, %s, expanded, refused),
             target matches Some(tv) ==> !expanded.contains(tv),
             cost_local(si) ==> bell_ok(si, *direction, traversal_costs@, %s, expanded, refused),
-            cost_local(si) ==> tied_ok(si, *direction, solution@),"""
+            cost_local(si) ==> tied_ok(si, *direction, solution@),
+            inc_ok(&si.directed_graph, *direction, solution@),"""
     INV = """            vstd::std_specs::hash::obeys_key_model::<VertexId>(),
             !c_inf(Cost::ZERO), c_val(Cost::ZERO) == 0real, c_inf(Cost::INFINITY),
             target != Some(source),
@@ -724,7 +759,8 @@ def build(x):
             pot_ok(source, solution@, traversal_costs@),
             target is None ==> exp_ok(&si.directed_graph, &si.frontier_model, *direction, traversal_costs@, Set::<VertexId>::empty(), expanded, refused),
             (target is None && cost_local(si)) ==> bell_ok(si, *direction, traversal_costs@, Set::<VertexId>::empty(), expanded, refused) && tied_ok(si, *direction, solution@),
-            target matches Some(tv) ==> solution@.contains_key(tv),""")
+            target matches Some(tv) ==> solution@.contains_key(tv),
+            inc_ok(&si.directed_graph, *direction, solution@),""")
     ra.add_loop_spec(2, "            invariant\n" + INV + """
 """ + INVQ % ("costs@.dom().insert(current_vertex_id)", "costs@.dom().insert(current_vertex_id)") + """
             iterations < u64::MAX,
@@ -767,6 +803,7 @@ def build(x):
             let labels = Map::<VertexId, Cost>::empty().insert(source, Cost::ZERO);
             let t = Map::<VertexId, SearchTreeBranch>::empty();
             assert(tree_wf(&si.directed_graph, &si.frontier_model, *direction, t));
+            assert(inc_ok(&si.directed_graph, *direction, t));
             assert(dom_ok(source, t, labels));
             assert(pot_ok(source, t, labels));
             assert(target == Some(source));
@@ -804,6 +841,17 @@ def build(x):
                         &&& term_spec(*direction, e) == b.terminal_vertex
                         &&& exists|s: Seq<StateVar>, last: Option<Edge>| #[trigger] permitted(fm, e, s, last) }) by {
                         if k == key_vertex_id { } else { assert(t_old.contains_key(k)); assert(solution@[k] == t_old[k]); }
+                    }
+                    assert forall|k: VertexId| #[trigger] solution@.contains_key(k) implies exists|i: int| #[trigger] inc_at(g, *direction, solution@, k, i) by {
+                        if k == key_vertex_id {
+                            assert(solution@[k].terminal_vertex == current_vertex_id);
+                            assert(verif_it.seq()[verif_it.pos() - 1] == *edge_id);
+                            assert(inc_at(g, *direction, solution@, k, verif_it.pos() - 1));
+                        } else {
+                            assert(t_old.contains_key(k)); assert(solution@[k] == t_old[k]);
+                            let i0 = choose|i: int| #[trigger] inc_at(g, *direction, t_old, k, i);
+                            assert(inc_at(g, *direction, solution@, k, i0));
+                        }
                     }
                     let qn = costs@.dom().insert(current_vertex_id); let qo = q_old.insert(current_vertex_id);
                     assert(traversal_costs@ =~= l_old.insert(key_vertex_id, tentative_gscore));
